@@ -87,6 +87,9 @@ class DomainAdapter(Adapter):
         # first would trigger - and so hide - a lazy rebuild): forward and backward in turn
         d = w['d']
         w['turn'] = w.get('turn', 0) + 1
+        if getattr(self, 'blind', False):       # a walk on which nothing is observed before its end (graph.blind_walks)
+            w['first'] = None
+            return {}
         try:
             m = int(d.length)
             probe = np.cos(0.37 * np.arange(1, m + 1)) + 0.2
@@ -117,6 +120,15 @@ class DomainAdapter(Adapter):
         BDK = mono(b['dk']) / self.s
         if d.length != n:
             bad('Length', expected=n, observed=d.length)
+        if w.get('first') is None and w.get('turn'):
+            # a walk without observations: the very first access to the object after ALL its configuration steps is a transform
+            try:
+                m = int(d.length)
+                probe = np.cos(0.37 * np.arange(1, m + 1)) + 0.2
+                which = 'f' if w['turn'] % 2 else 'r'
+                w['first'] = (which, probe, np.array(d.to_fourier(probe.copy()) if which == 'f' else d.to_real(probe.copy()), dtype=float))
+            except Exception as ex:      # noqa
+                w['first'] = ('x', None, '%s: %s' % (type(ex).__name__, str(ex)[:160]))
         first = w.get('first')
         if first is not None and first[0] == 'x':
             bad('FirstTransformAfterSetter', observed=first[2], what='the first transform after the configuration step raised')
